@@ -470,6 +470,10 @@ func runC01(e *env) {
 	for i, t := range g.specialFloats() {
 		add("special-floats", t, printCtxs[i%len(printCtxs)], d0, 0)
 	}
+	// 3c. short-circuit and evaluation order made visible by operands without a value
+	for i, t := range g.shortCircuit() {
+		add("short-circuit", t, printCtxs[i%len(printCtxs)], d0, 0)
+	}
 	// 4. every position x every kind of expression (shallow)
 	for rep := 0; rep < 40*e.scale; rep++ {
 		for ci := range ctxs {
